@@ -112,30 +112,84 @@ theorem evalItemB_sect (conv : Conv) (s : Schema) (m : Matcher) (ty : Str) (nm :
         | error e => rfl
         | ok r => rfl
 
+/-! ### the same evaluation when the option bags consult a schema `S` of their own
+
+In the code every `OptionBag` keeps the schema the load STARTED with (`ExtendedConfigLoader.cook`) and looks the type of the
+section it descends into up THERE; after a `%import` the loader's schema is a derived, larger one.  `evalItemBS conv S s`
+is `evalItemB conv s` with the bags consulting `S`; with `S = s` (no `%import` so far) it is `evalItemB conv s`. -/
+
+mutual
+def evalItemBS (conv : Conv) (S s : Schema) (m : Matcher) : Item → M Matcher
+  | .kv k v p => addValue conv m k v p
+  | .sect ty nm items =>
+    match sectCheck s m.ty ty nm with
+    | .error e => .error e
+    | .ok t =>
+      match bagStep conv S m (t.name.getD []) nm with
+      | .error e => .error e
+      | .ok (m1, cb) =>
+        match evalItemsBS conv S s (newMatcher t nm cb) items with
+        | .error e => .error e
+        | .ok child =>
+          match finishMatcher conv s child with
+          | .error e => .error e
+          | .ok (v, _) => addSection s m1 ty nm v
+def evalItemsBS (conv : Conv) (S s : Schema) (m : Matcher) : List Item → M Matcher
+  | [] => .ok m
+  | i :: r =>
+    match evalItemBS conv S s m i with
+    | .error e => .error e
+    | .ok m' => evalItemsBS conv S s m' r
+end
+
+mutual
+theorem evalItemBS_self (conv : Conv) (s : Schema) : ∀ (i : Item) (m : Matcher), evalItemBS conv s s m i = evalItemB conv s m i
+  | .kv k v p, m => by rw [evalItemBS, evalItemB]
+  | .sect ty nm items, m => by
+    rw [evalItemBS, evalItemB]
+    cases sectCheck s m.ty ty nm with
+    | error e => rfl
+    | ok t =>
+      simp only
+      cases bagStep conv s m (t.name.getD []) nm with
+      | error e => rfl
+      | ok mc =>
+        obtain ⟨m1, cb⟩ := mc
+        simp only
+        rw [evalItemsBS_self conv s items (newMatcher t nm cb)]
+theorem evalItemsBS_self (conv : Conv) (s : Schema) : ∀ (l : List Item) (m : Matcher), evalItemsBS conv s s m l = evalItemsB conv s m l
+  | [], m => by rw [evalItemsBS, evalItemsB]
+  | i :: r, m => by
+    rw [evalItemsBS, evalItemsB, evalItemBS_self conv s i m]
+    cases evalItemB conv s m i with
+    | error e => rfl
+    | ok m' => exact evalItemsBS_self conv s r m'
+end
+
 /-! ### frame lemma -/
 
 mutual
-theorem runItem_evalB (conv : Conv) (s : Schema) :
+theorem runItem_evalBS (conv : Conv) (S s : Schema) :
     ∀ (i : Item) (st : LS) (m : Matcher) (below : List Matcher),
-      st.stack = m :: below → st.schema = s → st.conv = conv →
-      match evalItemB conv s m i with
+      st.stack = m :: below → st.schema = s → st.conv = conv → st.bagSchema.getD st.schema = S →
+      match evalItemBS conv S s m i with
       | .ok m' => ∃ hs, runItem st i = .ok (withTop st m' below hs)
       | .error e => runItem st i = .error e
-  | .kv k v p, st, m, below, hst, hsch, hconv => by
-    obtain ⟨sch, priv, hd, stk, pk, cv⟩ := st
-    simp only at hst hsch hconv
-    subst hst hsch hconv
-    rw [evalItemB, runItem]
+  | .kv k v p, st, m, below, hst, hsch, hconv, hbs => by
+    obtain ⟨sch, priv, hd, stk, pk, cv, bs⟩ := st
+    simp only at hst hsch hconv hbs
+    subst hst hsch hconv hbs
+    rw [evalItemBS, runItem]
     unfold lsValue
     simp only
     cases h : addValue cv m k v p with
     | error e => rfl
     | ok m' => exact ⟨hd, rfl⟩
-  | .sect ty nm items, st, m, below, hst, hsch, hconv => by
-    obtain ⟨sch, priv, hd, stk, pk, cv⟩ := st
-    simp only at hst hsch hconv
-    subst hst hsch hconv
-    rw [evalItemB, runItem]
+  | .sect ty nm items, st, m, below, hst, hsch, hconv, hbs => by
+    obtain ⟨sch, priv, hd, stk, pk, cv, bs⟩ := st
+    simp only at hst hsch hconv hbs
+    subst hst hsch hconv hbs
+    rw [evalItemBS, runItem]
     unfold lsStart sectCheck
     simp only
     cases hg : sch.gettype ty with
@@ -159,10 +213,10 @@ theorem runItem_evalB (conv : Conv) (s : Schema) :
               cases hb : m.bag with
               | none =>
                 simp only
-                have ih := runItems_evalB cv sch items
+                have ih := runItems_evalBS cv (bs.getD sch) sch items
                   { schema := sch, privateSchema := priv, handlers := hd, stack := newMatcher t nm none :: m :: below,
-                    pkgs := pk, conv := cv } (newMatcher t nm none) (m :: below) rfl rfl rfl
-                cases he : evalItemsB cv sch (newMatcher t nm none) items with
+                    pkgs := pk, conv := cv, bagSchema := bs } (newMatcher t nm none) (m :: below) rfl rfl rfl rfl
+                cases he : evalItemsBS cv (bs.getD sch) sch (newMatcher t nm none) items with
                 | error e =>
                   rw [he] at ih
                   rw [ih]
@@ -183,16 +237,16 @@ theorem runItem_evalB (conv : Conv) (s : Schema) :
                     | ok m' => exact ⟨hs1 ++ hs2, rfl⟩
               | some b =>
                 simp only
-                cases hbs : bagSectionInfo cv sch b (t.name.getD []) nm with
+                cases hbs : bagSectionInfo cv (bs.getD sch) b (t.name.getD []) nm with
                 | error e => rfl
                 | ok bc =>
                   obtain ⟨b', cb⟩ := bc
                   simp only
-                  have ih := runItems_evalB cv sch items
+                  have ih := runItems_evalBS cv (bs.getD sch) sch items
                     { schema := sch, privateSchema := priv, handlers := hd,
                       stack := newMatcher t nm cb :: { m with bag := some b' } :: below,
-                      pkgs := pk, conv := cv } (newMatcher t nm cb) ({ m with bag := some b' } :: below) rfl rfl rfl
-                  cases he : evalItemsB cv sch (newMatcher t nm cb) items with
+                      pkgs := pk, conv := cv, bagSchema := bs } (newMatcher t nm cb) ({ m with bag := some b' } :: below) rfl rfl rfl rfl
+                  cases he : evalItemsBS cv (bs.getD sch) sch (newMatcher t nm cb) items with
                   | error e =>
                     rw [he] at ih
                     rw [ih]
@@ -211,20 +265,20 @@ theorem runItem_evalB (conv : Conv) (s : Schema) :
                       cases ha : addSection sch { m with bag := some b' } ty nm v with
                       | error e => rfl
                       | ok m' => exact ⟨hs1 ++ hs2, rfl⟩
-theorem runItems_evalB (conv : Conv) (s : Schema) :
+theorem runItems_evalBS (conv : Conv) (S s : Schema) :
     ∀ (l : List Item) (st : LS) (m : Matcher) (below : List Matcher),
-      st.stack = m :: below → st.schema = s → st.conv = conv →
-      match evalItemsB conv s m l with
+      st.stack = m :: below → st.schema = s → st.conv = conv → st.bagSchema.getD st.schema = S →
+      match evalItemsBS conv S s m l with
       | .ok m' => ∃ hs, runItems st l = .ok (withTop st m' below hs)
       | .error e => runItems st l = .error e
-  | [], st, m, below, hst, hsch, hconv => by
-    rw [evalItemsB, runItems]
+  | [], st, m, below, hst, hsch, hconv, hbs => by
+    rw [evalItemsBS, runItems]
     refine ⟨st.handlers, ?_⟩
     simp [withTop, ← hst]
-  | i :: r, st, m, below, hst, hsch, hconv => by
-    rw [evalItemsB, runItems]
-    have ih := runItem_evalB conv s i st m below hst hsch hconv
-    cases he : evalItemB conv s m i with
+  | i :: r, st, m, below, hst, hsch, hconv, hbs => by
+    rw [evalItemsBS, runItems]
+    have ih := runItem_evalBS conv S s i st m below hst hsch hconv hbs
+    cases he : evalItemBS conv S s m i with
     | error e =>
       rw [he] at ih
       rw [ih]
@@ -233,8 +287,8 @@ theorem runItems_evalB (conv : Conv) (s : Schema) :
       obtain ⟨hs1, hr⟩ := ih
       rw [hr]
       simp only
-      have ih2 := runItems_evalB conv s r (withTop st m1 below hs1) m1 below rfl hsch hconv
-      cases he2 : evalItemsB conv s m1 r with
+      have ih2 := runItems_evalBS conv S s r (withTop st m1 below hs1) m1 below rfl hsch hconv hbs
+      cases he2 : evalItemsBS conv S s m1 r with
       | error e =>
         rw [he2] at ih2
         exact ih2
@@ -244,6 +298,26 @@ theorem runItems_evalB (conv : Conv) (s : Schema) :
         exact ⟨hs2, by simp only [hr2]; rfl⟩
 end
 
+
+/-- the frame lemma for a state whose bags consult the schema in force (`S = s`) -/
+theorem runItem_evalB (conv : Conv) (s : Schema) (i : Item) (st : LS) (m : Matcher) (below : List Matcher)
+    (hst : st.stack = m :: below) (hsch : st.schema = s) (hconv : st.conv = conv) (hbs : st.bagSchema.getD st.schema = s) :
+    match evalItemB conv s m i with
+    | .ok m' => ∃ hs, runItem st i = .ok (withTop st m' below hs)
+    | .error e => runItem st i = .error e := by
+  have h := runItem_evalBS conv s s i st m below hst hsch hconv hbs
+  rw [evalItemBS_self] at h
+  exact h
+
+theorem runItems_evalB (conv : Conv) (s : Schema) (l : List Item) (st : LS) (m : Matcher) (below : List Matcher)
+    (hst : st.stack = m :: below) (hsch : st.schema = s) (hconv : st.conv = conv) (hbs : st.bagSchema.getD st.schema = s) :
+    match evalItemsB conv s m l with
+    | .ok m' => ∃ hs, runItems st l = .ok (withTop st m' below hs)
+    | .error e => runItems st l = .error e := by
+  have h := runItems_evalBS conv s s l st m below hst hsch hconv hbs
+  rw [evalItemsBS_self] at h
+  exact h
+
 /-! ### the tree-driven loader with overrides -/
 
 /-- the bag `load` starts with -/
@@ -252,7 +326,11 @@ def bagOf (conv : Conv) (schema : Schema) (ovs : List OptItem) : M (Option Bag) 
 
 def stOv (conv : Conv) (pkgs : Str → Pkg) (schema : Schema) (bag : Option Bag) : LS :=
   { schema := schema, privateSchema := false, handlers := [], stack := [newMatcher schema.top none bag],
-    pkgs := pkgs, conv := conv }
+    pkgs := pkgs, conv := conv, bagSchema := bag.map fun _ => schema }
+
+theorem stOv_bagSchema (conv : Conv) (pkgs : Str → Pkg) (s : Schema) (bag : Option Bag) :
+    (stOv conv pkgs s bag).bagSchema.getD (stOv conv pkgs s bag).schema = s := by
+  cases bag <;> rfl
 
 /-- what `loadTree` does after the items have been run (`treeFin` of `TextLoad`, restated here to keep the import
     graph small) -/
@@ -283,6 +361,7 @@ theorem run_fin_eq (conv : Conv) (pkgs : Str → Pkg) (s : Schema) (bag : Option
     runItems (stOv conv pkgs s bag) items >>= treeFinB conv s =
       evalItemsB conv s (newMatcher s.top none bag) items >>= topFin conv s := by
   have h := runItems_evalB conv s items (stOv conv pkgs s bag) (newMatcher s.top none bag) [] rfl rfl rfl
+    (stOv_bagSchema conv pkgs s bag)
   cases he : evalItemsB conv s (newMatcher s.top none bag) items with
   | error e =>
     rw [he] at h
